@@ -4,7 +4,7 @@ _index is j; the result list holds the element values in order; sizeof = count *
 from pyvc import terms as t, prelude
 from pyvc.terms import I, S
 from pyvc.values import *  # noqa
-from pyvc.contract import Case, rk_dyn
+from pyvc.contract import Case, rk_dyn, rk_list
 from pyvc.exec import LoopSpec
 from .prims import fcontract, S_, generic_raise, buffer_same, size_is, _param_int
 from .composites import ps, mkPS, _base
@@ -113,7 +113,7 @@ def _array_parse_bad(pre, post):
 def register_repeaters(src):
     define_array_folds()
     fcontract('Array', '_parse', [
-        Case('ok', 'return', lambda pre: t.TRUE, ensures=_array_parse_ok, rkind=rk_dyn, modifies=['stream']),
+        Case('ok', 'return', lambda pre: t.TRUE, ensures=_array_parse_ok, rkind=rk_list, modifies=['stream']),
         Case('fails', 'raise', lambda pre: t.TRUE, ensures=_array_parse_bad, modifies=['stream']),
     ], loops={'for i in range(count)': LoopSpec(_parse_inv, tags=T, modifies=())}, tags=T)
     fcontract('Array', '_sizeof', [
@@ -217,7 +217,7 @@ def _array_build_bad(pre, post):
 def register_array_build(src):
     define_array_build_folds()
     fcontract('Array', '_build', [
-        Case('ok', 'return', lambda pre: t.TRUE, ensures=_array_build_ok, rkind=rk_dyn, modifies=['stream']),
+        Case('ok', 'return', lambda pre: t.TRUE, ensures=_array_build_ok, rkind=rk_list, modifies=['stream']),
         Case('fails', 'raise', lambda pre: t.TRUE, ensures=_array_build_bad, modifies=['stream']),
     ], loops={'for (i, e) in enumerate(obj)': LoopSpec(_build_inv, tags=T)}, tags=T, sequential_build=False,
         requires=lambda pre: [('the-supplied-value-is-a-list-like-sequence', t.and_(t.app('dyn_sized', t.BOOL, pre['obj'].t), t.app('(_ is VOpq)', t.BOOL, pre['obj'].t)))])
